@@ -428,6 +428,15 @@ def std_call(interp, name, args, kwargs, node=None):
         return itertools.repeat(*args)
     if name == "itertools.count":
         return itertools.count(*args)
+    if name == "itertools.cycle":
+        return itertools.cycle(list(lazy_iter(args[0])))
+    if name == "itertools.accumulate":
+        if len(args) > 1 or kwargs.get("func") is not None:
+            f_ = args[1] if len(args) > 1 else kwargs["func"]
+            return itertools.accumulate(lazy_iter(args[0]), lambda a, b: interp.apply(f_, [a, b], {}, node), **{k: v for k, v in kwargs.items() if k == "initial"})
+        return itertools.accumulate(lazy_iter(args[0]), **kwargs)
+    if name == "itertools.pairwise":
+        return itertools.pairwise(lazy_iter(args[0]))
     if name == "itertools.zip_longest":
         return itertools.zip_longest(*[lazy_iter(a) for a in args], **kwargs)
     if name == "itertools.product":
